@@ -1,5 +1,7 @@
+pub mod core;
 pub mod drive;
 pub mod engine;
+pub mod hmodel;
 pub mod props;
 pub mod scan;
 pub mod surfgen;
